@@ -391,7 +391,7 @@ def pipeline_render(cfg):
     src += "${x%s}" % ((" | " + ", ".join(local)) if local else "")
     kw = {}
     if cfg["default_filters"] is not None:
-        kw["default_filters"] = list(cfg["default_filters"])
+        kw["default_filters"] = cfg["default_filters"]
     # names used in default_filters / expression_filter must be visible at module level: provide them through imports=
     import sys
     mod = types.ModuleType("c02_filters_mod")
